@@ -15,7 +15,7 @@ META = {
                    'os.makedirs are re-executed over the modelled syscalls, k also falls between the steps of a '
                    'cross-volume copy+delete. The invariant is evaluated on the model state at the crash instant. '
                    'states = distinct (configuration, k) explored; transitions = system calls executed.',
-    'assumptions': ['crash = fail-stop between two system calls; each syscall atomic; a single os.write of the info '
+    'assumptions': ['crash = fail-stop between two system calls, or a KeyboardInterrupt raised instead of / right after a system call (handlers run); each syscall atomic; a single os.write of the info '
                     'content is atomic (torn writes and power-loss reordering are outside)', 'PosixModel fidelity'],
 }
 
@@ -107,7 +107,28 @@ def check_state(before, after, src, label):
     return ''
 
 
-def _case(kind, cfg, k):
+MODES = ['kill', 'sigint-before-syscall', 'sigint-after-syscall']
+_KB = {}
+
+
+def kbound(cfg):
+    """1 + the length (in system calls) of the longest undisturbed run of this configuration over the 6 entry
+    kinds, measured on the current code: crash points beyond it do not exist"""
+    if cfg is None:
+        return KMAX
+    if cfg not in _KB:
+        with rt.untraced():
+            n = 0
+            for kind in range(6):
+                world, step, src = scenario(kind, cfg)
+                m = W.build_model(world)
+                _, r0 = scen.run_model(None, [step], model=m)
+                n = max(n, r0[0]['ops'])
+            _KB[cfg] = n + 1
+    return _KB[cfg]
+
+
+def _case(kind, cfg, k, mode=0):
     with rt.untraced():
         world, step, src = scenario(kind, cfg)
         label = '%s:%s' % (K.KINDS[kind], CONFIGS[cfg])
@@ -117,31 +138,36 @@ def _case(kind, cfg, k):
         probe = m.clone()
         _, r0 = scen.run_model(None, [step], model=probe)
         n = r0[0]['ops']
-        if n >= KMAX:
-            return rt.fail('C05:bound-too-small', 'run of %d system calls reaches KMAX=%d' % (n, KMAX))
-        if k > n:
+        if n >= kbound(cfg) or n >= KMAX:
+            return rt.fail('C05:bound-too-small', 'run of %d system calls reaches the bound %d' % (n, min(kbound(cfg), KMAX)))
+        if k > n or (mode and k == n):
             rt.begin()
             return rt.ok()  # no crash happens: same as k == n
-        rt.begin((K.KINDS[kind], CONFIGS[cfg], k, n))
-        _, r = scen.run_model(None, [step], hook=scen.CrashHook(k), model=m)
+        rt.begin((K.KINDS[kind], CONFIGS[cfg], k, n, MODES[mode]))
+        hook = scen.CrashHook(k) if mode == 0 else scen.InterruptHook(k, after=(mode == 2))
+        _, r = scen.run_model(None, [step], hook=hook, model=m)
         after = m.snap('/')
-        x = check_state(before, after, src, label + (':completed' if not r[0].get('crashed') else ''))
+        # (a process that received SIGINT may well die with a traceback: that is still 'killed')
+        ended = 'completed' if not (r[0].get('crashed') or r[0].get('interrupted') or mode) else ''
+        x = check_state(before, after, src, label + (':' + ended if ended else '') + (':' + MODES[mode] if mode else ''))
         if x:
-            return x + ' [crash before syscall %d of %d: %r]' % (k, n, m.oplog[-3:])
+            return x + ' [%s, syscall %d of %d: %r]' % (MODES[mode], k, n, m.oplog[-3:])
         return rt.ok()
 
 
-def w_crash(kind: int, cfg: int, k: int) -> str:
+def w_crash(kind: int, cfg: int, k: int, mode: int) -> str:
     """
     pre: PARTITION is None or cfg == PARTITION
-    pre: 0 <= kind < 6 and 0 <= cfg < 12 and 0 <= k < 400
+    pre: 0 <= kind < 6 and 0 <= cfg < 12 and 0 <= k < kbound(PARTITION) and 0 <= mode < 3
     post: _ == ''
     """
-    return _case(rt.sel(kind, 6), rt.sel(cfg, 12), rt.sel(k, 400))
+    return _case(rt.sel(kind, 6), rt.sel(cfg, 12), rt.sel(k, kbound(PARTITION)), rt.sel(mode, 3))
 
 
 def obligations(tier):
-    return [CH('W_crash_point_x_kind_x_config', MOD, 'w_crash', timeout=1800, partitions=list(range(12)), engine='W',
+    return [CH('W_crash_point_x_kind_x_config', MOD, 'w_crash', timeout=2400, partitions=list(range(12)), engine='W',
                regime='selector', encodes=K.PUT_FUNCS + ['shutil.move/copytree/copy2/rmtree, os.makedirs (CPython source over the model)'],
-               stubs=K.STUBS, bounds='crash point k in 0..399 (every run is shorter: checked) x 6 kinds x 12 configurations '
-                                     '(first use, existing dir, sticky .Trash, 1-2 collisions, home, cross-volume fallback, --trash-dir, orphan in the way, a name ending in .trashinfo, a 250-byte name)')]
+               stubs=K.STUBS + ['SIGKILL -> sticky BaseException at the k-th system call', 'SIGINT -> one KeyboardInterrupt instead of / right after the k-th system call'],
+               bounds='crash point k in 0..(longest undisturbed run of the configuration, measured) x 3 ways of dying (fail-stop; KeyboardInterrupt '
+                      'delivered before / after the k-th system call, clean-up handlers run) x 6 kinds x 12 configurations '
+                      '(first use, existing dir, sticky .Trash, 1-2 collisions, home, cross-volume fallback, --trash-dir, orphan in the way, a name ending in .trashinfo, a 250-byte name)')]
